@@ -268,6 +268,35 @@ static void raw_block(void *arg)
 }
 /* One case = one sample count x one data_identifier class would lose the rest of the case when the
  * multiplexer aborts; the case runs in a child and is resumed behind an execution that died, see guarded(). */
+/* ======================================================================== */
+/* phase raw-align: a maximum length raw data unit at every fill level        */
+
+/* A 251 sample segment makes a 257 byte data unit, the maximum.  What follows it in the packet depends on how many bytes are
+ * left to the next multiple of 184: stuffing units, a one byte extension of the last unit, or - with exactly one byte left
+ * behind a 257 byte unit - nothing that fits.  The fill level is swept with every number of Teletext lines 0..14 x VPS x
+ * Caption x WSS in front of 1..3 raw lines of 250, 251 and 252 samples (the unit sizes around the maximum). */
+static void rawalign_case(uint64_t idx, void *arg)
+{
+        static const unsigned ttx_lines[14] = { 7, 8, 9, 10, 11, 12, 13, 14, 15, 17, 18, 19, 20, 22 };
+        int a = idx % 15, b = (idx / 15) & 1, c2 = (idx / 30) & 1, w = (idx / 60) & 1, m = 1 + (idx / 120) % 3, nn = 250 + (idx / 360) % 3;
+        uint64_t ev = 0;
+        for (int d = 0; d < 4; d++) for (int mo = 0; mo < 2; mo++) for (int sz = 0; sz < 2; sz++) {
+                struct h_cfg c = { DIDS[d], 184, sz ? 1472 : 65504, MODES[mo ? 2 : 0].ts, MODES[mo ? 2 : 0].pid };
+                struct h_frame f; f_reset(&f, 0x23456789ll); f_raw(&f, nn, 132);
+                for (int i = 0; i < a; i++) f_add(&f, VBI_SLICED_TELETEXT_B, ttx_lines[i], 3);
+                /* ascending line order: VPS 16 sorts between the Teletext lines */
+                if (b) f_add(&f, VBI_SLICED_VPS, 16, 0);
+                if (c2) f_add(&f, VBI_SLICED_CAPTION_625_F1, 21, 0);       /* the multiplexer takes Caption 625 on line 21 */
+                if (w) f_add(&f, VBI_SLICED_WSS_625, 23, 0);
+                for (int i = 0; i < m; i++) f_add(&f, VBI_SLICED_VBI_625, 320 + i, 0);
+                /* sort by line (f_add appends) */
+                for (int i = 1; i < f.n; i++) for (int j = i; j > 0 && f.l[j - 1].line > f.l[j].line; j--) { struct h_line t = f.l[j]; f.l[j] = f.l[j - 1]; f.l[j - 1] = t; }
+                ev += single(&c, &f, IF_FEED);
+        }
+        mc_count("evaluations", ev);
+        mc_distinct(0xBC000000ull + idx);
+}
+
 static void raw_case(uint64_t idx, void *arg)
 {
         int n = (int) idx + 1;
@@ -505,6 +534,7 @@ int main(int argc, char **argv)
         mc_pool("frames3", NFRAMES3, frames3_case, NULL, 60);
         mc_pool("dense", NDW, dense_case, NULL, 60);
         mc_pool("raw", 720, raw_case, NULL, 60);
+        mc_pool("raw-align", 15 * 2 * 2 * 2 * 3 * 3, rawalign_case, NULL, 60);
         mc_pool("misc", NCFG, misc_case, NULL, 60);
         mc_pool("cor", NCORFRAMES * 12, cor_case, NULL, 120);
 
